@@ -58,7 +58,7 @@ func loadLockPkg(repo string) (*lockPkg, error) {
 	}
 	fset := token.NewFileSet()
 	p := &lockPkg{unexp: map[string][]*ast.FuncDecl{}, flows: map[*ast.FuncDecl][]flowEv{},
-		setup: map[string]bool{"negotiateSession": true, "writeStreamFeatures": true}}
+		setup: map[string]bool{}}
 	for _, e := range ents {
 		n := e.Name()
 		if e.IsDir() || !strings.HasSuffix(n, ".go") || strings.HasSuffix(n, "_test.go") {
@@ -455,10 +455,69 @@ func (p *lockPkg) ambient(fd *ast.FuncDecl) string {
 	if p.holder != "" && recvName(fd) == p.holder {
 		return "holder"
 	}
-	if fd.Recv == nil && p.setup[fd.Name.Name] {
+	if fd.Recv == nil && !fd.Name.IsExported() && p.isSetup(fd.Name.Name, followDepth+1, map[string]bool{}) {
 		return "setup"
 	}
 	return ""
+}
+
+// takesSession: the function has a parameter of type *Session (somebody who already HAS a
+// session can call it).
+func takesSession(fd *ast.FuncDecl) bool {
+	if fd.Type.Params == nil {
+		return false
+	}
+	for _, f := range fd.Type.Params.List {
+		if st, ok := f.Type.(*ast.StarExpr); ok {
+			if id, ok := st.X.(*ast.Ident); ok && id.Name == "Session" {
+				return true
+			}
+		}
+	}
+	return false
+}
+
+// isSetup (round E, replaces a list of two function names): the unexported top-level function
+// `name` can only run while a session is being MADE, before any other goroutine can have it.
+// Structurally: every reference to it (call, function value, also inside a function literal)
+// sits in a top-level function - never in a method (the methods of Session are what the owner of
+// a finished session can call), never in a go statement - that is either exported and takes no
+// *Session (a constructor: NewSession, ReceiveSession, NewNegotiator, ...) or unexported and
+// itself setup by the same rule.  No function name is used.
+func (p *lockPkg) isSetup(name string, depth int, seen map[string]bool) bool {
+	if v, ok := p.setup[name]; ok {
+		return v
+	}
+	if depth == 0 || seen[name] {
+		return false
+	}
+	seen[name] = true
+	defer delete(seen, name)
+	sites := 0
+	for _, g := range p.fds {
+		for _, e := range p.flow(g) {
+			if e.kind != "ref" || e.name != name || g.Name.Name == name {
+				continue
+			}
+			sites++
+			if e.inGo || g.Recv != nil {
+				return false
+			}
+			if g.Name.IsExported() {
+				if takesSession(g) {
+					return false
+				}
+				continue
+			}
+			if !p.isSetup(g.Name.Name, depth-1, seen) {
+				return false
+			}
+		}
+	}
+	if sites > 0 && depth == followDepth+1 {
+		p.setup[name] = true
+	}
+	return sites > 0
 }
 
 // callersHold: every reference to the unexported function name (call, method value, function
